@@ -106,7 +106,7 @@ func (c *Ctx) RunCases(cases []*Case, after func(cr *CaseResult)) {
 			cr.Lines = cs.Lines(termCols)
 			cr.Impl = []string{"HANG: the operation did not return within 20 s"}
 			path := c.saveCase(cr)
-			c.Check("operation-returns", false, "C04:hang", map[string]interface{}{"case": cs.Description, "case_file": path}, "no return within 20 s", "normal return")
+			c.Check("operation-returns", false, c.Prop+":hang", map[string]interface{}{"case": cs.Description, "case_file": path}, "no return within 20 s", "normal return")
 			c.R.Notes = append(c.R.Notes, "run aborted: the implementation hung on "+path)
 			c.queue = nil
 			c.Finish(c.Start, c.Rule, c.Out)
